@@ -31,6 +31,12 @@ std::string fmt(const char *f, ...) {
 
 void Runner::viol(const char *prop, const std::string &cls, const std::string &sigrest, const std::string &detail, int op) {
   if (out.viols.size() >= 64) return;
+  // plans with several caller threads: corruption of a stream, a missing end-of-file or a foreign close is cross-talk between
+  // children (C20) as well as a violation of the single-threaded property
+  static const char *const xt[] = { "stdin-corrupted", "stdin-duplicated", "stdin-lost", "no-eof-after-close", "output-corrupted", "wrong-status", "double-close", "foreign-close", "closed-stream-not-reported", "closed-error-on-open-stdin" };
+  if (tpos.size() > 1 && strcmp(prop, "C20") != 0)
+    for (const char *c : xt)
+      if (cls == c) { viol("C20", "cross-talk-" + cls, sigrest, detail, op); break; }
   Viol v;
   v.prop = prop;
   v.cls = cls;
